@@ -88,6 +88,9 @@ func GenAd(signed bool) *rapid.Generator[Ad] {
 		nk := len(gen.Keys())
 		a := Ad{HasPrev: rapid.Bool().Draw(t, "hasprev"), NoEntries: rapid.IntRange(0, 3).Draw(t, "noentries") == 0}
 		a.Prev = gen.Cid().Draw(t, "prev").String()
+		if rapid.IntRange(0, 9).Draw(t, "wellknown-prev") == 4 {
+			a.Prev = schema.NoEntries.Cid.String()
+		}
 		a.Entries = gen.Cid().Draw(t, "entries").String()
 		a.Provider = gen.KeyIdx().Draw(t, "provider")
 		a.IDForm = rapid.SampledFrom([]int{0, 0, 0, 1, 2}).Draw(t, "idform")
@@ -117,6 +120,17 @@ func GenAd(signed bool) *rapid.Generator[Ad] {
 				e := EP{Addrs: genAddrs(t, 3), Metadata: genMeta(t)}
 				if i == mainAt {
 					e.IDKey = a.Provider
+					// the main provider's own entry often repeats the advertisement's addresses and metadata, or omits them
+					switch rapid.IntRange(0, 5).Draw(t, "mainform") {
+					case 0, 1:
+						e.Addrs, e.Metadata = append([]string(nil), a.Addrs...), append([]byte(nil), a.Metadata...)
+					case 2:
+						e.Addrs = nil
+					case 3:
+						e.Metadata = nil
+					case 4:
+						e.Addrs, e.Metadata = nil, nil
+					}
 				} else {
 					for {
 						e.IDKey = rapid.IntRange(0, nk-4).Draw(t, "epkey") // non-RSA identities for speed
@@ -189,6 +203,10 @@ func GenChunk() *rapid.Generator[Chunk] {
 	return rapid.Custom(func(t *rapid.T) Chunk {
 		n := rapid.OneOf(rapid.IntRange(0, 6), rapid.IntRange(0, 200)).Draw(t, "nmh")
 		c := Chunk{HasNext: rapid.Bool().Draw(t, "hasnext"), Next: gen.Cid().Draw(t, "next").String()}
+		if rapid.IntRange(0, 5).Draw(t, "wellknown-next") == 3 {
+			// links with a meaning elsewhere in the schema are still just links here
+			c.Next = schema.NoEntries.Cid.String()
+		}
 		for i := 0; i < n; i++ {
 			c.Entries = append(c.Entries, gen.Multihash().Draw(t, "mh"))
 		}
